@@ -487,15 +487,20 @@ pub fn c08_close_step<const N: usize, const B: usize>() {
     let mut m = mk_map(h, &ents);
     let h2: [u8; 20] = kani::any();
     let pid: [u8; 20] = kani::any();
-    m.handle_connection_closed(InfoHash(h2), PeerId(pid));
+    // identity of the connection that closed (socket worker id + per-worker slot key)
+    let c2: u8 = kani::any();
+    let k2: u32 = kani::any();
+    m.handle_connection_closed(InfoHash(h2), PeerId(pid), ConsumerId(c2), conn(k2));
     let t = m.torrents.get(&InfoHash(h)).unwrap();
     let mut present = false;
+    let mut owned = false;
     let mut was_seeder = false;
     let mut ns = 0usize;
     let mut i = 0;
     while i < N {
         if ents[i].pid == pid {
             present = true;
+            owned = ents[i].consumer == c2 && ents[i].conn == k2;
             was_seeder = ents[i].seeder;
         }
         if ents[i].seeder {
@@ -503,13 +508,21 @@ pub fn c08_close_step<const N: usize, const B: usize>() {
         }
         i += 1;
     }
-    let removed = present && h2 == h;
-    assert!(t.peers.len() == if removed { N - 1 } else { N }, "close removes exactly the named entry of the named torrent");
+    let removed = present && owned && h2 == h;
+    assert!(t.peers.len() == if removed { N - 1 } else { N }, "closing a connection removes exactly the named entry of the named torrent, and only if that connection created it");
     assert!(t.num_seeders == ns - if removed && was_seeder { 1 } else { 0 }, "seeder count after close");
     assert!(t.num_seeders == seeders::<B>(t), "cached seeder count inconsistent after close");
     let (_, f) = find::<B>(t, &pid);
-    assert!(f.is_some() == (present && !removed), "closed entry still stored / other entry removed");
-    kani::cover!(removed, "entry removed");
+    assert!(f.is_some() == (present && !removed), "closed entry still stored / entry of another connection removed by a close");
+    if let Some((sd, cons, cn, _vu, _ne)) = f {
+        let j: usize = kani::any();
+        kani::assume(j < N);
+        if ents[j].pid == pid {
+            assert!(sd == ents[j].seeder && cons == ents[j].consumer && cn == conn(ents[j].conn), "surviving entry changed by a close");
+        }
+    }
+    kani::cover!(removed, "entry removed by its own connection");
+    kani::cover!(present && !owned && h2 == h, "close from a connection that does not own the entry");
     std::mem::forget(m);
 }
 
